@@ -30,12 +30,13 @@ ConstFeats == {"type:str", "type:int", "type:float", "type:bool", "lit:5", "lit:
 \* "steals_foreign_tree" models taking it without checking whose text it is the tree of: the first query after
 \* verifyOther is then answered on the other text (which contains none of the features) and the wrong tree is cached.
 Pseudo == {"foreign", "verifyOther"}
-VARIABLES prog, hist, handlers, failed, srcTree, cached
-vars == <<prog, hist, handlers, failed, srcTree, cached>>
+VARIABLES prog, hist, handlers, failed, srcTree, cached,
+          wrong        \* ghost: some query of this session was answered with something else than the program's count
+vars == <<prog, hist, handlers, failed, srcTree, cached, wrong>>
 
 Init == prog \in {p \in [Feats -> 0..MaxOcc] : \A f \in Pseudo \cap Feats : p[f] = 0}
         /\ hist = <<>> /\ handlers = {} /\ failed = FALSE
-        /\ srcTree = "none" /\ cached = "none"          \* whose tree the Source tool holds / CAIT has cached for the submission
+        /\ srcTree = "none" /\ cached = "none" /\ wrong = FALSE          \* whose tree the Source tool holds / CAIT has cached for the submission
 
 RECURSIVE SumOver(_)
 SumOver(S) == IF S = {} THEN 0 ELSE LET f == CHOOSE f \in S : TRUE IN prog[f] + SumOver(S \ {f})
@@ -55,11 +56,16 @@ Ask(f) == /\ Len(hist) < MaxLen
           /\ failed' = (f = "foreign" \/ ("stale_failure" \in Flags /\ failed))
           /\ srcTree' = IF f = "verifyOther" THEN "other" ELSE srcTree
           /\ cached' = IF f \in Pseudo THEN cached ELSE IF WrongTree THEN "other" ELSE "own"
+          /\ wrong' = (wrong \/ Answer(f) # prog[f])
           /\ UNCHANGED prog
 Next == \E f \in Feats : Ask(f)
 Spec == Init /\ [][Next]_vars
 
 HistoryIndependent == \A i \in 1..Len(hist) : hist[i].ans = prog[hist[i].f]
+\* the same contract without the history: with StateView as TLC's VIEW the reachable set is finite and sessions of EVERY
+\* length are decided
+NeverWrong == ~wrong
+StateView == <<prog, handlers, failed, srcTree, cached, wrong>>
 NothingSurvives == handlers = {}
 Export == Len(hist) = MaxLen => PrintT(<<"VP", ToJson([prog |-> prog, hist |-> hist])>>)
 =============================================================================
